@@ -684,12 +684,12 @@ def _ITEMVAL(it):
     return 0 if it >= 100 else it
 
 
-def _proj(binner, arr, contents):
+def _proj(binner, arr, contents, scale=1):
     sums = binner.sums(arr)
     nb = binner.numbins(arr)
     outl = []
     for i in range(nb):
-        s = exact_int(sums[i])
+        s = exact_int(sums[i] / scale)      # scale is a power of two: the division is exact
         c = [int(x) for x in arr[1][i]] if contents else []
         if contents and binner.numitems(arr, i) != len(c):
             s = None
@@ -710,7 +710,12 @@ def run_binner_hist(st):
     """st: {ops: [{op,a,b,i,j,n,it}], mgr, ns}: replays a TLC-generated history on a real bins-manager, recording the projected state of every
     live array after every operation and, for handed-over arguments, what the old handle shows right after the call"""
     contents = st["mgr"] == "contents"
-    B = (prtpy.BinnerKeepingContents if contents else prtpy.BinnerKeepingSums)(_ITEMVAL)
+    # "tiny" histories: every item is worth its model value times 2^-40 (exact in float64); the projection scales back, so the model is unchanged.
+    # Sums of such items differ by far less than 1e-9: a rounded or tolerance-based comparison inside the manager shows here and nowhere else.
+    scale = 2.0 ** -40 if st.get("tiny") else 1
+    B = (prtpy.BinnerKeepingContents if contents else prtpy.BinnerKeepingSums)(_ITEMVAL if scale == 1 else (lambda it: _ITEMVAL(it) * scale))
+    _p = _proj
+    _proj_s = lambda b, a, c: _p(b, a, c, scale)
     ns = st.get("ns", 3)
     live = {}
     evs = []
@@ -738,29 +743,29 @@ def run_binner_hist(st):
             elif o == "addempty":
                 old = live[a]
                 live[a] = B.add_empty_bins(old, op["n"])
-                ev["args"] = [{"slot": a, "bins": _proj(B, old, contents)}]
+                ev["args"] = [{"slot": a, "bins": _proj_s(B, old, contents)}]
             elif o == "remove":
                 old = live[a]
                 live[a] = B.remove_bins(old, op["n"])
-                ev["args"] = [{"slot": a, "bins": _proj(B, old, contents)}]
+                ev["args"] = [{"slot": a, "bins": _proj_s(B, old, contents)}]
             elif o == "concat":
                 o1, o2 = live[a], live[b]
                 live[a] = B.concatenate_bins(o1, o2)
                 del live[b]
-                ev["args"] = [{"slot": a, "bins": _proj(B, o1, contents)}, {"slot": b, "bins": _proj(B, o2, contents)}]
+                ev["args"] = [{"slot": a, "bins": _proj_s(B, o1, contents)}, {"slot": b, "bins": _proj_s(B, o2, contents)}]
             elif o == "combine":
                 B.combine_bins(live[a], op["i"] - 1, live[b], op["j"] - 1)
         except Exception as e:
             ev["out"] = outcome_of_exception(e)
         try:
-            ev["st"] = [{"live": 1 if s in live else 0, "bins": _proj(B, live[s], contents) if s in live else []} for s in range(1, ns + 1)]
+            ev["st"] = [{"live": 1 if s in live else 0, "bins": _proj_s(B, live[s], contents) if s in live else []} for s in range(1, ns + 1)]
         except Exception as e:
             ev["out"] = "bad:projection:" + type(e).__name__
             ev["st"] = [{"live": 0, "bins": []} for s in range(1, ns + 1)]
         evs.append(ev)
         if ev["out"] != "ret":
             break
-    return {"mgr": st["mgr"], "ns": ns, "ops": evs}
+    return {"mgr": st["mgr"], "ns": ns, "ops": evs, "tiny": 1 if st.get("tiny") else 0}
 
 
 # ------------------------------------------------------------------ C11: anytime algorithms under a counting clock
@@ -1038,6 +1043,29 @@ def _limb_seq(xs):
     except Exception:
         return [], False
     return outl, ok
+
+
+def run_big_refuse(st):
+    """st: {vals (python ints, one of them larger than C), C (python int of about 2^53 / 1e16), calls: [(alg, fmt, ot)]}: packing requests that must be
+    refused; numbers go to TLC as two limbs (hi < 2^31, lo < 2^26)"""
+    vals, C = st["vals"], st["C"]
+    two = lambda v: [int(v) >> 26, int(v) & ((1 << 26) - 1)]
+    res = []
+    for alg, fmt, ot in st["calls"]:
+        items, valueof, back = present(vals, fmt)
+        o = "ret"
+        try:
+            hang.arm(20)
+            try:
+                prtpy.pack(algorithm=pack_alg(alg), binsize=C, items=items, valueof=valueof, outputtype=OUTTYPES[ot])
+            finally:
+                hang.arm(0)
+        except Watchdog:
+            o = "timeout"
+        except Exception as e:
+            o = outcome_of_exception(e)
+        res.append({"alg": alg, "fmt": fmt, "ot": ot, "out": o})
+    return {"vals": [two(v) for v in vals], "C": two(C), "rawvals": [str(v) for v in vals], "rawC": str(C), "res": res}
 
 
 def run_big_group(g):
